@@ -54,6 +54,7 @@ type Contract struct {
 	Pkg      string
 	Props    []string
 	Requires []*Clause
+	Assumes  []*Clause // assumed at entry, not checked at call sites (data-structure invariants; listed in evidence)
 	Ensures  []*Clause
 	Modifies []*Clause // each with Expr = location expression
 	HasMod   bool      // a modifies clause was given (possibly "\nothing")
@@ -134,6 +135,8 @@ func parseContractFile(path, pkg string) ([]*Contract, error) {
 		switch cl.Kind {
 		case "requires":
 			cur.Requires = append(cur.Requires, cl)
+		case "assume":
+			cur.Assumes = append(cur.Assumes, cl)
 		case "ensures":
 			cur.Ensures = append(cur.Ensures, cl)
 		case "invariant":
